@@ -104,6 +104,10 @@ def run(tier):
     extra = 20000 if tier == "quick" else 900000
     for _ in range(extra):
         names.append("".join(rng.choice(sym + ["A", "Z", " ", "/", "\\", "\"", "\U0001d4b3"]) for _ in range(rng.randint(4, 14))))
+    # long components: pairs that agree on a long prefix and differ only at the end (a fixed-size scratch buffer would merge them)
+    for L in (31, 32, 33, 63, 64, 65, 127, 128, 129, 254, 255, 256, 257, 300, 511, 512, 513, 1000, 1023, 1024, 1025, 4096, 5000):
+        base = ("fieldName" * (L // 9 + 1))[:L - 1]
+        names += [base + "a", base + "b", base, base + "ab"]
     names = sorted(set(n for n in names if "." not in n and not n.startswith("$")))
     for repl in ("REDACTED",) if tier == "quick" else ("REDACTED", "X"):
         res = []
